@@ -127,6 +127,46 @@ PROPS["C09"] = _e1({
                          "scale_hits": 150, "scale_misses": 400}},
 })
 
+PROPS["C13"] = _e1({
+    "rule": "all 56 ordered pairs (term quantity, per quantity) from {Length, Duration, Mass, SynRef, SynA, SynSingle, "
+            "SynNoRef (as per quantity, operand in the per unit), AmountT} x all term units x all per units x term amounts "
+            "x per multiples x every operand unit x operand amounts (small alphabet): both constructors and four "
+            "accessors, reciprocal (once and twice, bit-exact), rate*q and q*rate (bit-identical to each other, judged "
+            "against the exact value term x (q / per)), q/rate (exact value per x (q / term)), reciprocal()*q (same exact "
+            "value), and the inverse path (q/rate)*rate back to q's magnitude within the composed bound",
+    "floors": {"quick": {"type_pairs": 56, "value_checked": 3000000, "operand_orders_agree": 1000000,
+                         "inverse_paths": 800000}},
+})
+
+PROPS["C14"] = _e1({
+    "rule": "(a) ALL conversion tables with N = 0, 1, 2, 3 entries over the 3 units of SynNoRef, entries drawn from 9 "
+            "(from, to) pairs including from = to x 3 affine maps (1 + 27 + 729 + 19 683 = 20 440 tables; duplicates, "
+            "missing pairs, shadowed entries and (u,u) rows all occur) x 9 (source, target) pairs x 4 amounts: result "
+            "unchanged for equal units, bit-identical to amount*factor+offset of the FIRST matching entry, None otherwise; "
+            "(b) TEMPERATURE_CONVERTER: breadth-first closure to depth 3 over the 3 units from V u fixed points of the "
+            "scales (-459.67, -273.15, -40, 0, 32, 100, 273.15, 373.15, 1e6), every transition judged against the exact "
+            "formulas with the bound of one multiply-add whose literals carry an 18-digit / double representation error; "
+            "all depth-2 paths judged for round trip and composition",
+    "floors": {"quick": {"tables": 20440, "mapped_cases": 100000, "no_entry_cases": 300000, "shadowed_entry_cases": 10000,
+                         "same_unit_cases": 200000, "value_checked": 900, "paths_depth2": 400}},
+})
+
+PROPS["C15"] = _e1({
+    "rule": {"quick": "per type the smallest, middle, reference and largest unit plus units with non-ASCII symbols x ~40 "
+                      "amounts of every sign and magnitude class (negative zero under f64, 18-digit decimals, ties such as "
+                      "2.5, 0.125, 0.045, 9.995, 999.95) x the format grid: 32 flag combinations (sign flag x zero flag x "
+                      "fill/alignment in {none, <, ^, >, *<, _^, 0>, micro-sign>}) x widths {none,0,1,7,12,40} x precisions "
+                      "{none,0,1,2,6,18,20} = 1344 specifications per value; the unit itself under the same grid against "
+                      "str formatting of its symbol; rates under {} for 6 type pairs x all units x amounts x multiples "
+                      "(incl. the neighbours of one). Oracle: independent layout model (character-count padding, explicit "
+                      "alignment exact, default alignment left or right accepted, sign-aware zero padding) + amount text "
+                      "parses back bit-exactly / is correctly rounded to exactly p digits (decided in exact rationals)",
+             "thorough": "as quick with every unit, widths none and 0..40, precisions none and 0..20 (29 568 "
+                         "specifications per value) and extreme magnitudes (1e300, 5e-324, f64::MAX)"},
+    "floors": {"quick": {"types": 26, "units": 80, "transitions": 3000000, "unit_specs": 100000, "rate_cases": 50000,
+                         "rate_multiple_one_cases": 10000}},
+})
+
 PROPS["C16"] = _e1({
     "backends": ["f64"],
     "rule": {"quick": "exhaustive over the finite parts: all 25 prefixes (name, abbr, exp, both round trips, pairwise "
